@@ -26,6 +26,8 @@ ASSUMPTIONS = [
     "criteria sets are such that an ambiguous accumulated field (seqid list, '.', 'sequence_feature') is never consulted",
     "merged ids are required to be distinct from each other and from the inputs' ids, not to have a particular value",
     "inputs to merge() are start-ordered (grouped by seqid/strand/type where the pattern mixes them)",
+    "a sequence name containing a comma (not valid unescaped in GFF3 column 1) is only judged on runs of at most two members: "
+    "identical names must count as the same sequence; with a third member the accumulated, comma-joined name would be consulted",
 ]
 
 
